@@ -378,6 +378,8 @@ def run(ctx):
         'post-commit operation calling check_and_complete', ctx.loc(rc))
     from mstatic.rules import shared
     shared.affected_tasks_cover_completed(ctx, r5)
+    shared.affected_walk_stops(ctx, r5)
+    shared.routing_recorded_before_pause(ctx, r5)
     ca = prog.func(TH + '._check_affected_tasks')
     site = [s for s in cg.posttx_sites if s[0] == ca.qname]
     r5.check(bool(site) and site[0][2] is True,
